@@ -34,6 +34,7 @@ type mInc struct {
 	Flatten, Internal                          bool
 }
 type mCase struct {
+	Clash bool
 	Tree  map[string][]mInc
 	Errs  []int
 	Table []mEntry
@@ -63,6 +64,10 @@ func parseMerge(out string) ([]mCase, error) {
 		r := tlaval.Rec(v)
 		c := mCase{Tree: map[string][]mInc{}, Raw: txt}
 		for f, incs := range tlaval.Rec(r["tree"]) {
+			if f == "clash" {
+				c.Clash = tlaval.Bool(incs)
+				continue
+			}
 			for _, iv := range tlaval.Seq(incs) {
 				m := tlaval.Rec(iv)
 				c.Tree[f] = append(c.Tree[f], mInc{NS: tlaval.Str(m["ns"]), File: tlaval.Str(m["file"]), Missing: tlaval.Str(m["missing"]), Alias: tlaval.Str(m["alias"]),
@@ -158,12 +163,15 @@ func relPath(from, to string) string {
 	return r
 }
 
-func writeTree(root string, tree map[string][]mInc) {
+func writeTree(root string, tree map[string][]mInc, clash bool) {
 	for f, d := range fileDir {
 		dir := filepath.Join(root, d)
 		os.MkdirAll(filepath.Join(dir, "sub"), 0o755)
 		var b strings.Builder
 		b.WriteString("version: '3'\nsilent: true\n")
+		if f == "C" {
+			b.WriteString("vars:\n  CV: {sh: 'pwd # c'}\n")
+		}
 		if incs := tree[f]; len(incs) > 0 {
 			b.WriteString("includes:\n")
 			for _, inc := range incs {
@@ -196,6 +204,9 @@ func writeTree(root string, tree map[string][]mInc) {
 			}
 		}
 		b.WriteString("tasks:\n" + fileTasksYAML[f])
+		if f == "R" && clash {
+			b.WriteString("  'x:t1':\n    cmds:\n      - echo \"O|R.x:t1|$PWD|{{.IV}}\"\n")
+		}
 		os.WriteFile(filepath.Join(dir, "Taskfile.yml"), []byte(b.String()), 0o644)
 	}
 }
@@ -267,6 +278,15 @@ func dumpTable(e *task.Executor) string {
 		if t.IncludeVars != nil {
 			fmt.Fprintf(&b, "|iv:%v", t.IncludeVars.ToCacheMap())
 		}
+		if t.IncludedTaskfileVars != nil {
+			for k, v := range t.IncludedTaskfileVars.All() {
+				sh := ""
+				if v.Sh != nil {
+					sh = *v.Sh
+				}
+				fmt.Fprintf(&b, "|fv:%s=%v,sh=%s,dir=%s", k, v.Value, sh, v.Dir)
+			}
+		}
 		b.WriteString("\n")
 	}
 	if e.Taskfile.Vars != nil {
@@ -282,7 +302,7 @@ func evalMerge(c mCase, loads int) (ms []mMismatch, unstable *mMismatch) {
 	}
 	defer os.RemoveAll(root)
 	root, _ = filepath.EvalSymlinks(root)
-	writeTree(root, c.Tree)
+	writeTree(root, c.Tree, c.Clash)
 	mm := func(sig, what string) { ms = append(ms, mMismatch{Sig: sig, Tree: c.Tree, What: what}) }
 	var out bytes.Buffer
 	e := newExec(root, &out)
